@@ -348,6 +348,14 @@ def real_brew_pretrained(cfg, inp):
         for (f, r) in rr:
             pred[r] = fold
     raw = lambda r: 1000.0 * pred[r] + r + 0.25 + (500.0 if labels[r] else 0.0)
+    want_folds = sorted({pred[r] for r in pred if dfm[pred[r] - 1]})
+    if len(calls) != len(want_folds):
+        return dict(violation="decision_function per fold %s, prediction chunk %s: %d calibration calls for the %d non-empty folds %s that are to be calibrated (a fold must be calibrated once, as a whole): %s"
+                    % (dfm, inp["chunk_prediction"], len(calls), len(want_folds), want_folds, calls))
+    for (ss, tt), k in zip(calls, want_folds):
+        rows_k = sorted(r for r in pred if pred[r] == k)
+        if sorted(round(x, 6) for x in ss) != sorted(round(raw(r), 6) for r in rows_k):
+            return dict(violation="calibration call for fold %d received %s, the fold's raw scores are %s" % (k, ss, [raw(r) for r in rows_k]))
     for (ss, tt) in calls:
         # identify rows from the scripted scores: score = 1000*fold + r + .25 (+500 for targets)
         for x, t in zip(ss, tt):
